@@ -4,8 +4,45 @@ leaves the other lexicons alone (modulo the cascade through rows that referenced
 Theorems over `deleteLexicon` / `removeLexicon` (`Model/Remove.lean`) for every database.
 -/
 import WnVerif.Model.Remove
+import WnVerif.Gen.Schema
 namespace WnVerif.Props.C05
 open WnVerif.Db
+
+/-! ### tie to `schema.sql`: the foreign keys and their ON DELETE actions that `FK` and
+`deleteLexicon` below transcribe are exactly those of the schema as regenerated on this run -/
+
+/-- (table, column, referenced table, ON DELETE action) -/
+def modelFks : List (String × String × String × String) := [
+  ("adjpositions", "sense_rowid", "senses", "CASCADE"),
+  ("counts", "lexicon_rowid", "lexicons", "CASCADE"), ("counts", "sense_rowid", "senses", "CASCADE"),
+  ("definitions", "lexicon_rowid", "lexicons", "CASCADE"), ("definitions", "sense_rowid", "senses", "SET NULL"),
+  ("definitions", "synset_rowid", "synsets", "CASCADE"),
+  ("entries", "lexicon_rowid", "lexicons", "CASCADE"),
+  ("forms", "entry_rowid", "entries", "CASCADE"), ("forms", "lexicon_rowid", "lexicons", "CASCADE"),
+  ("ilis", "status_rowid", "ili_statuses", "NO ACTION"),
+  ("lexicon_dependencies", "dependent_rowid", "lexicons", "CASCADE"), ("lexicon_dependencies", "provider_rowid", "lexicons", "SET NULL"),
+  ("lexicon_extensions", "base_rowid", "lexicons", "NO ACTION"), ("lexicon_extensions", "extension_rowid", "lexicons", "CASCADE"),
+  ("pronunciations", "form_rowid", "forms", "CASCADE"),
+  ("proposed_ilis", "synset_rowid", "synsets", "CASCADE"),
+  ("sense_examples", "lexicon_rowid", "lexicons", "CASCADE"), ("sense_examples", "sense_rowid", "senses", "CASCADE"),
+  ("sense_relations", "lexicon_rowid", "lexicons", "CASCADE"), ("sense_relations", "source_rowid", "senses", "CASCADE"),
+  ("sense_relations", "target_rowid", "senses", "CASCADE"), ("sense_relations", "type_rowid", "relation_types", "NO ACTION"),
+  ("sense_synset_relations", "lexicon_rowid", "lexicons", "CASCADE"), ("sense_synset_relations", "source_rowid", "senses", "CASCADE"),
+  ("sense_synset_relations", "target_rowid", "synsets", "CASCADE"), ("sense_synset_relations", "type_rowid", "relation_types", "NO ACTION"),
+  ("senses", "entry_rowid", "entries", "CASCADE"), ("senses", "lexicon_rowid", "lexicons", "CASCADE"),
+  ("senses", "synset_rowid", "synsets", "CASCADE"),
+  ("synset_examples", "lexicon_rowid", "lexicons", "CASCADE"), ("synset_examples", "synset_rowid", "synsets", "CASCADE"),
+  ("synset_relations", "lexicon_rowid", "lexicons", "CASCADE"), ("synset_relations", "source_rowid", "synsets", "CASCADE"),
+  ("synset_relations", "target_rowid", "synsets", "CASCADE"), ("synset_relations", "type_rowid", "relation_types", "NO ACTION"),
+  ("synsets", "ili_rowid", "ilis", "NO ACTION"), ("synsets", "lexfile_rowid", "lexfiles", "NO ACTION"),
+  ("synsets", "lexicon_rowid", "lexicons", "CASCADE"),
+  ("syntactic_behaviour_senses", "sense_rowid", "senses", "CASCADE"),
+  ("syntactic_behaviour_senses", "syntactic_behaviour_rowid", "syntactic_behaviours", "CASCADE"),
+  ("syntactic_behaviours", "lexicon_rowid", "lexicons", "CASCADE"),
+  ("tags", "form_rowid", "forms", "CASCADE")]
+
+theorem C05_gen_foreign_keys :
+    Gen.schema.flatMap (fun t => t.fks.map (fun f => (t.name, f.col, f.table, f.onDelete))) = modelFks := by decide
 
 /-- referential integrity of the store: every `REFERENCES … ON DELETE CASCADE / SET NULL`
 column of `schema.sql` points at an existing row -/
